@@ -628,7 +628,7 @@ class _Real:
             self.handles.append(self.connectable.connect(self.lab.sched))
 
     def disc(self, i):
-        if self.connectable is not None:
+        if self.connectable is not None and self.handles[i] is not None:  # connect() may return None by its signature
             self.handles[i].dispose()
 
     def adv(self, dt):
